@@ -242,3 +242,27 @@ Example wire_examples :
   check_rel [1;97;0]%N = Err W_AbsoluteName /\ check_rel [1;97]%N = Ok tt /\ check_rel [] = Ok tt /\
   check_abs [] = Err W_ShortInput /\ chain_new 250 5 = Ok tt /\ chain_new 250 6 = Err W_LongChain.
 Proof. vm_compute. repeat split; reflexivity. Qed.
+
+(* ---- the length tests at the other sites that produce names (T1 items):
+   ParsedName::parse_ref (both phases; s = octets of the non-root labels read
+   so far), Name::parse_name_len (whole length), zone-file convert_label (c =
+   content octets written, on the fast and on the slow path) and scan_name
+   (write = relative length after a dot) enforce the same limits as the
+   validators *)
+Theorem message_zonefile_limits : forall s c : nat,
+  (exceeds parse_ref_phase1_ge s parse_ref_phase1_lim = false <-> (s + 1 <= name_max)%nat) /\
+  (exceeds parse_ref_phase2_ge s parse_ref_phase2_lim = false <-> (s + 1 <= name_max)%nat) /\
+  (exceeds name_parse_ge s name_parse_lim = false <-> (s <= name_max)%nat) /\
+  (exceeds zf_label_fast_ge (1 + c) (1 + zf_label_latest_add) = false <-> (c <= label_max)%nat) /\
+  (exceeds zf_label_slow_ge (1 + c) (1 + zf_label_latest_add) = false <-> (c <= label_max)%nat) /\
+  (exceeds zf_name_ge s zf_name_lim = false <-> (s <= check_rel_lim)%nat).
+Proof.
+  intros s c.
+  unfold parse_ref_phase1_ge, parse_ref_phase1_lim, parse_ref_phase2_ge, parse_ref_phase2_lim,
+    name_parse_ge, name_parse_lim, zf_label_fast_ge, zf_label_slow_ge, zf_label_latest_add,
+    zf_name_ge, zf_name_lim, name_max, label_max, check_rel_lim.
+  rewrite ?exceeds_ge, ?exceeds_gt.
+  repeat split; intros H;
+    try (apply Nat.leb_gt in H; lia); try (apply Nat.ltb_ge in H; lia);
+    try (apply Nat.leb_gt; lia); try (apply Nat.ltb_ge; lia).
+Qed.
